@@ -373,8 +373,10 @@ class CyclicCodeEncoder(SystematicLinearBlockCodeEncoder):
         Returns:
             The minimum distance of the code
         """
-        # The minimum distance is at least the minimum weight of the generator polynomial
-        min_dist = bin(self._generator_poly.value).count("1")
+        # The generator polynomial is itself a codeword, so its weight is only an upper bound.
+        # A guaranteed lower bound: a generator of degree >= 1 dividing X^n + 1 has a non-zero
+        # constant term and therefore divides no monomial, so no codeword has weight 1.
+        min_dist = 2 if self._generator_poly.degree >= 1 else 1
 
         # For small codes, we can enumerate all codewords and find the minimum weight
         if self._dimension <= 12:  # Practical limit for enumeration
